@@ -55,6 +55,11 @@ def evaluate(spec, wd):
         try:
             runners[st_] = formcheck.FormRunner(spec, wd, scalar_type=st_, name=f"{st_}_{h}", built=built).compile()
         except kernels.Rejected as e:
+            if not np.issubdtype(np.dtype(st_), np.complexfloating):
+                # a form with complex literals / imag() has no real-mode meaning (UFL: "Unexpected complex value in real expression"):
+                # the complex kernels are still judged against the complex reference
+                classes.append(f"real-mode-rejected:{st_}")
+                continue
             return Outcome("rejected", case_id=h, classes=classes + [f"rejected:{st_}:{type(e.exc).__name__}"], what=str(e)[:300])
         except kernels.CompileError as e:
             return Outcome("cc-error", case_id=h, classes=classes + [f"cc-error:{st_}"], what=e.stderr[-300:])
@@ -64,7 +69,7 @@ def evaluate(spec, wd):
     checked = 0
     for complex_data in (False, True):
         dseed = (spec["data_seed"] + (15485863 if complex_data else 0)) & 0x7FFFFFFF
-        types = TYPES if not complex_data else TYPES[2:]
+        types = [t for t in (TYPES if not complex_data else TYPES[2:]) if t in runners]
         ref_runner = runners["complex128"]
         for itype, sid in ref_runner.declared_groups():
             nent = formcheck.entity_count(cell, itype)
@@ -105,6 +110,8 @@ def evaluate(spec, wd):
             if not complex_data:
                 # pairwise agreement at the narrower type's precision
                 for a, b in (("float32", "float64"), ("complex64", "complex128"), ("float64", "complex128"), ("float32", "complex64")):
+                    if a not in results or b not in results:
+                        continue
                     Ea = results[a][1] + results[b][1]
                     ok, worst, idx = formcheck.compare(results[a][0].astype(np.complex128), results[b][0].astype(np.complex128), Ea)
                     if not ok:
